@@ -44,6 +44,16 @@ type c42Engine struct{}
 func (c42Engine) Name() string     { return "svc-sched" }
 func (c42Engine) Property() string { return "C42" }
 
+// WarmupCase makes every warm-up run request every endpoint once: the first compilation of a
+// service in a process initialises the packages it imports for good (one lock operation more
+// than later compilations), so a counted run must never be the first to use an endpoint.
+func (c42Engine) WarmupCase(c *simrun.Case, i int) {
+	c.Ops = nil
+	for ep := 0; ep < c42Endpoints; ep++ {
+		c.Ops = append(c.Ops, simrun.Op{C: ep + 1, K: "req", A: []int64{int64((ep + i) % c42Endpoints), int64(ep % len(c42Users)), int64(10*ep + 1 + i), int64(2 + i)}})
+	}
+}
+
 // ---- generated stateless services (no package-level state)
 
 var c42Services = map[string]string{
@@ -173,6 +183,23 @@ func handler(req http.Request, w *http.ResponseWriter) {
 `
 }
 
+// a service that reads its URL part through the bare symbol the server defines for it
+// (service.go: "make the symbols present in the symbol table as well")
+func init() {
+	c42Services["vs/bare.ego"] = `@endpoint get path="/services/vs/bare/{{item}}"
+
+import "http"
+
+func handler(req http.Request, w *http.ResponseWriter) {
+    msg := fmt.Sprintf("%v|%v|%v", item, req.URL.Parts["item"], req.Username)
+    w.WriteHeader(200)
+    w.Write(msg)
+}
+`
+}
+
+const c42Endpoints = 7
+
 var (
 	c42Lib  string
 	c42Once bool
@@ -252,11 +279,11 @@ func (c42Engine) Generate(seed uint64, tier string) *simrun.Case {
 	// simulated CPU time per scheduling decision: the service cache ages entries by wall
 	// clock and its eviction loop does not terminate when all ages are equal (frozen clock)
 	c.Knobs["tick_ns"] = []int64{1000, 20000}[r.Intn(2)]
-	same := r.Intn(6) // favourite endpoint so that same-endpoint races are common
+	same := r.Intn(c42Endpoints) // favourite endpoint so that same-endpoint races are common
 	for i := 0; i < n; i++ {
 		ep := same
 		if r.Chance(1, 3) {
-			ep = r.Intn(6)
+			ep = r.Intn(c42Endpoints)
 		}
 		// A = [endpoint, user, v1, v2]; all values pairwise distinct across the batch (i is mixed in)
 		c.Ops = append(c.Ops, simrun.Op{C: i + 1, K: "req", A: []int64{int64(ep), int64(r.Intn(len(c42Users))), int64(10*i + 1 + r.Intn(9)), int64(2 + r.Intn(5))}})
@@ -281,7 +308,7 @@ func c42Request(op simrun.Op) *http.Request {
 	i := op.C
 	v1, v2 := op.Arg(2), op.Arg(3)
 	var req *http.Request
-	switch op.Arg(0) % 6 {
+	switch op.Arg(0) % c42Endpoints {
 	case 0:
 		req = httptest.NewRequest("GET", fmt.Sprintf("/services/vs/mix/item%dx%d?n=%d&who=w%d", i, v1, v2, i), nil)
 	case 1:
@@ -291,6 +318,8 @@ func c42Request(op simrun.Op) *http.Request {
 		req = httptest.NewRequest("GET", fmt.Sprintf("/services/vs/loop/%d/%d", v1, v2), nil)
 	case 3:
 		req = httptest.NewRequest("GET", fmt.Sprintf("/services/vs/rev/w%dord%d?q=%d", v1, i, v2), nil)
+	case 6:
+		req = httptest.NewRequest("GET", fmt.Sprintf("/services/vs/bare/thing%dof%d", v1, i), nil)
 	case 5:
 		req = httptest.NewRequest("GET", fmt.Sprintf("/services/factor/%d", v1*6+int64(i)), nil)
 	default:
@@ -325,6 +354,7 @@ func (c42Engine) Execute(t *testing.T, c *simrun.Case, keepLog bool) *simrun.Out
 	}
 	var res sim.Result
 	ref := make([]c42Resp, len(c.Ops))
+	iso := make([]c42Resp, len(c.Ops))
 	got := make([]c42Resp, len(c.Ops))
 	var mu stdsync.Mutex
 	var setupErr error
@@ -337,6 +367,16 @@ func (c42Engine) Execute(t *testing.T, c *simrun.Case, keepLog bool) *simrun.Out
 		services.MaxCachedEntries = int(c.Knob("maxcache", 20))
 		res = sim.Run(opt, func() {
 			defer func() { pan = recover() }()
+			// absolute reference: every request on its own, on a server that has seen no other request
+			for i, op := range c.Ops {
+				services.FlushServiceCache()
+				rt, err := c42Router()
+				if err != nil {
+					setupErr = err
+					return
+				}
+				iso[i] = c42Serve(rt, op)
+			}
 			// reference: one at a time, fresh router and service cache
 			services.FlushServiceCache()
 			rt, err := c42Router()
@@ -385,7 +425,7 @@ func (c42Engine) Execute(t *testing.T, c *simrun.Case, keepLog bool) *simrun.Out
 	out.Probe("bytecode_steps", res.Sites["step"])
 	eps := map[int64]int{}
 	for _, op := range c.Ops {
-		eps[op.Arg(0)%6]++
+		eps[op.Arg(0)%c42Endpoints]++
 	}
 	for _, n := range eps {
 		if n >= 2 {
@@ -419,6 +459,10 @@ func (c42Engine) Execute(t *testing.T, c *simrun.Case, keepLog bool) *simrun.Out
 		}
 		if ref[i].status < 300 {
 			ok200++
+		}
+		if iso[i].String() != ref[i].String() {
+			out.Fail("C42/sees-earlier-request", "request %d (%s): served by a server that has seen no other request -> %s ; served after requests 0..%d, one at a time -> %s", i, c.Ops[i], iso[i], i-1, ref[i])
+			break
 		}
 		if got[i].String() != ref[i].String() {
 			out.Fail("C42/response-differs", "request %d (%s): served alone -> %s ; served concurrently -> %s", i, c.Ops[i], ref[i], got[i])
